@@ -8,39 +8,42 @@
 (*  - at the end of every server step, per source address, at most HoldMax     *)
 (*    distinct tunnel (ping/data) queries with id # 0 are held back.  A query  *)
 (*    stops counting as held once a query with the same question was answered  *)
-(*    (un-remembered duplicates are dropped by design).                        *)
+(*    (un-remembered duplicates are dropped by design).  For "held back" a     *)
+(*    question is identified ignoring letter case (lk = the name lower-cased): *)
+(*    a case-changed copy of a held query is a duplicate of it, whether the    *)
+(*    server remembers it as such or answers the held one and keeps the copy.  *)
 EXTENDS Naturals, FiniteSets
 
 CONSTANT HoldMax
 
-VARIABLES pending,   \* set of [n, src, id, qn, qt, tun, held]
+VARIABLES pending,   \* set of [n, src, id, qn, lk, qt, tun, held]
           done       \* questions <<src, qn, qt>> that have been answered at least once (repeats of those are
                      \* answered from the server's memories at once and never count as held back)
 
 MAInit == pending = {} /\ done = {}
 
-Recv(n, src, id, qn, qt, tun) ==
-    /\ pending' = pending \cup {[n |-> n, src |-> src, id |-> id, qn |-> qn, qt |-> qt,
-                                 tun |-> tun, held |-> (<<src, qn, qt>> \notin done)]}
+Recv(n, src, id, qn, lk, qt, tun) ==
+    /\ pending' = pending \cup {[n |-> n, src |-> src, id |-> id, qn |-> qn, lk |-> lk, qt |-> qt,
+                                 tun |-> tun, held |-> (<<src, lk, qt>> \notin done)]}
     /\ UNCHANGED done
 
 Match(r, dst, id, qn, qt) == r.src = dst /\ r.id = id /\ r.qn = qn /\ r.qt = qt
 
 \* hdr = the answer carries a tunnel data header (2 or more payload bytes, not an error text): only those are
 \* "answers to a held query"; 1-byte suppression replies, BADIP and the like are given at once by design
-Ans(dst, id, qn, qt, hdr) ==
+Ans(dst, id, qn, lk, qt, hdr) ==
     LET ms == {r \in pending : Match(r, dst, id, qn, qt)} IN
     /\ ms # {}
     /\ LET r == CHOOSE x \in ms : \A y \in ms : x.n <= y.n IN
        \* "answering the older one when a newer one arrives": a held tunnel query is not answered while an OLDER
        \* tunnel query with another question from the same address is still held back
        /\ (hdr /\ r.tun /\ r.held /\ r.id # 0) =>
-             ~\E o \in pending : /\ o.src = r.src /\ o.tun /\ o.held /\ o.id # 0 /\ o.qn # r.qn /\ o.n < r.n
-       /\ pending' = {IF x.src = dst /\ x.qn = qn /\ x.qt = qt THEN [x EXCEPT !.held = FALSE] ELSE x
+             ~\E o \in pending : /\ o.src = r.src /\ o.tun /\ o.held /\ o.id # 0 /\ o.lk # r.lk /\ o.n < r.n
+       /\ pending' = {IF x.src = dst /\ x.lk = lk /\ x.qt = qt THEN [x EXCEPT !.held = FALSE] ELSE x
                       : x \in pending \ {r}}
-       /\ done' = done \cup {<<dst, qn, qt>>}
+       /\ done' = done \cup {<<dst, lk, qt>>}
 
-HeldNames(s) == {r.qn : r \in {x \in pending : x.src = s /\ x.held /\ x.tun /\ x.id # 0}}
+HeldNames(s) == {r.lk : r \in {x \in pending : x.src = s /\ x.held /\ x.tun /\ x.id # 0}}
 
 StepEnd == /\ \A s \in {r.src : r \in pending} : Cardinality(HeldNames(s)) <= HoldMax
            /\ UNCHANGED <<pending, done>>
